@@ -185,7 +185,8 @@ def rule_costs_and_replay(ctx, rep, config="c-lib"):
     ok = len(calls) == 1 and const_int(calls[0].args[0]) == mac["YAEP_DESCRIPTION_SYNTAX_ERROR_CODE"]
     if ok:
         lp = loaded_from(ye, calls[0].args[2]) if len(calls[0].args) > 2 else None
-        ok = lp is not None and lp.root == ("g", "ln")
+        from .lexer import lexer_globals
+        ok = lp is not None and lp.root == ("g", lexer_globals(p)[1])
     if ok:
         rep.ok("C11-actions", "yyerror/code-and-line")
     else:
@@ -341,7 +342,17 @@ def rule_lexer_discipline(ctx, rep, config="c-lib"):
             pa = resolve_addr(f, s_.ops[1])
             if pa.root[0] == "g":
                 written.setdefault(pa.root[1], s_)
-    extra = sorted(set(written) - LEXER_WRITES)
+    # what the parser actions (yaep_yyparse) touch themselves; yylval is the hand-over cell, the cursor and the line counter are the scanner's own
+    yp = p.fn("yaep_yyparse")
+    acts = set()
+    for i_ in yp.all_insts():
+        for o_ in ([i_.ops[0]] if i_.op == "load" else ([i_.ops[1]] if i_.op == "store" else (i_.args if i_.is_call() else []))):
+            if isinstance(o_, dict) and o_.get("k") in ("i", "g"):
+                pa_ = resolve_addr(yp, o_)
+                if pa_.root[0] == "g":
+                    acts.add(pa_.root[1])
+    acts -= set(["yaep_yylval"])
+    extra = sorted(set(written) & acts)
     if extra:
         rep.violation("C11-lexer", "yylex/writes-own-state-only", "the scanner writes `%s', which the parser actions read: the scanner is one token ahead (lookahead), so an "
                       "action still working on the previous rule sees the value of the next one" % ", ".join(extra), where=written[extra[0]].where(),
@@ -397,10 +408,12 @@ def rule_line_count(ctx, rep, config="c-lib"):
     p = ctx.prog(config)
     f = p.fn("yaep_yylex")
     rep.cover(p, [f.name])
+    from .lexer import lexer_globals
+    CURSOR, LINE = lexer_globals(p)
     n = 0
     rets = [i for i in f.all_insts() if i.op == "ret"]
     for s_ in f.all_insts():
-        if s_.op != "store" or resolve_addr(f, s_.ops[1]).root != ("g", "ln") or resolve_addr(f, s_.ops[1]).steps:
+        if s_.op != "store" or resolve_addr(f, s_.ops[1]).root != ("g", LINE) or resolve_addr(f, s_.ops[1]).steps:
             continue
         v = f.inst(strip_int_casts(f, s_.ops[0]))
         if v is None or v.op != "add" or const_int(v.ops[1]) != 1:
@@ -435,8 +448,8 @@ def rule_line_count(ctx, rep, config="c-lib"):
             continue
         pi = f.inst(strip_casts(f, ptr))
         lp = loaded_from(f, ptr)
-        if lp is not None and lp.root == ("g", "curr_ch") and not lp.steps:
-            rep.ok("C11-ln", key, sample={"increment": s_.where(), "read_through": "curr_ch"})
+        if lp is not None and lp.root == ("g", CURSOR) and not lp.steps:
+            rep.ok("C11-ln", key, sample={"increment": s_.where(), "read_through": CURSOR})
             continue
         # a local cursor: the family of values connected by phi / gep
         fam, work = set(), [pi]
@@ -452,7 +465,7 @@ def rule_line_count(ctx, rep, config="c-lib"):
             for u in f.uses().get(x.id, []):
                 if u.op in ("phi", "getelementptr", "bitcast"):
                     work.append(u)
-        commits = [c_ for c_ in f.all_insts() if c_.op == "store" and resolve_addr(f, c_.ops[1]).root == ("g", "curr_ch") and not resolve_addr(f, c_.ops[1]).steps
+        commits = [c_ for c_ in f.all_insts() if c_.op == "store" and resolve_addr(f, c_.ops[1]).root == ("g", CURSOR) and not resolve_addr(f, c_.ops[1]).steps
                    and strip_casts(f, c_.ops[0]).get("v") in fam]
         leak = [r for r in rets if path_exists(f, s_, r, commits)]
         if leak:
